@@ -239,9 +239,68 @@ def cleanScript (n : Nat) (names : List Nat) (acts : List Act) : Bool :=
     rest.length == n + 1 && resps.length == n && resps.eraseDups.length == n && resps.all names.contains &&
     (match rest.getLast? with | some (.exit 0) => true | _ => false)
 
+/-- op "wedge": an in-process client that has taken all its requests, answered the first `pos`,
+then spoilt its output — and never ends.  `holds`: the reader finishes, waitForResponses and stop
+return all the same, every request has exactly one callback (own response or error), the runner says
+"not running" from the moment the failure is reported, a later send is refused.  `agree`: the
+callbacks are those of the model on the scenario's (only) schedule, and the model of
+`waitForResponses` (`wstep`) gets to its return by its own steps, the process never ending. -/
+def judgeWedge (inp impl : Json) : Verdict :=
+  if !(isNull (field impl "panic")) then
+    { agree := false, holds := false, why := "panic: " ++ str (field impl "panic") } else
+  if !(bool (field impl "valid")) then { agree := true, holds := true, nontrivial := false, cls := "invalid-input" } else
+  let n := nat (field inp "n")
+  let pos := nat (field inp "pos")
+  let badK := str (field inp "bad")
+  let ids := List.range n
+  -- the model: all sends first (the client reads everything before it writes), then the answers,
+  -- the spoilt output, the reader's shutdown, a late send
+  let sends : List Event := ids.flatMap (fun i => [Event.sStart i, .sLock i, .sRegister i, .sWriteOk i])
+  let good : List Event := (List.range pos).flatMap (fun m => [Event.rRecv m, .rLookup, .rFire])
+  let bad : List Event := match badK with
+    | "unknown" => [.rRecv 99, .rLookup]
+    | "dup" => [.rRecv (pos - 1), .rLookup]
+    | _ => [.rRecvBad]
+  let evs := sends ++ [.uCloseSend] ++ good ++ bad ++ [.rSetErr, .rTerminate, .rAbort, .rCloseSend, .rDrain, .rDone, .sStart n]
+  let names : Nat → ClientRunner.Name := fun i => if i < n then i else lateName
+  let s := run names init evs
+  let mRets := ids.map (fun i => retClass (s.spc i))
+  let mCbs : List (List Int) := ids.map (fun i => sortInts ((Spec.cbsOf s i).map fun o => match o with | some m => (m : Int) | none => -1))
+  let mLate := retClass (s.spc n)
+  let w := wsettle (waitCode .inProcess) (wrun (waitCode .inProcess) winit [.rDone]) 7
+  let mWait := w.wpc == .returned && !w.procGone
+  let rets := strList (field impl "rets")
+  let cbs := (arr (field impl "cbs")).map intList
+  let waitRet := bool (field impl "waitReturned")
+  let stopRet := bool (field impl "stopReturned")
+  let readerDone := bool (field impl "readerDone")
+  let runAtDone := bool (field impl "runAtDone")
+  let running := bool (field impl "running")
+  let late := str (field impl "late")
+  let lateCbs := nat (field impl "lateCbs")
+  let perReq := ids.all fun i => Spec.reqOK (names i) (classOfRet (rets.getD i "")) ((cbs.getD i []).map cbOfInt)
+  let cbRunning := cbs.any fun l => l.contains (-3)
+  let refused := Spec.refusedOK (classOfRet late) (List.replicate lateCbs none)
+  let why :=
+    if !readerDone then "deadlock: the output reader (consumeOutput) did not finish within 10 s"
+    else if !waitRet then "deadlock: waitForResponses did not return although the output reader had finished long ago — it waits for a client process that never ends"
+    else if !stopRet then "deadlock: stop() did not return — it waits for a client process that never ends"
+    else if !perReq then "exactly-once/own-response violated: rets " ++ toString rets ++ " callbacks " ++ toString cbs
+    else if !refused then "send after shutdown not refused: " ++ late
+    else if cbRunning then "isRunning() still true inside the completion callback that reports the failure of the client's output stream"
+    else if runAtDone || running then "isRunning() still true after the output reader had failed and shut down; this client never ends"
+    else ""
+  let agree := rets == mRets && cbs.map (fun l => sortInts (l.map fun v => if v == -3 then -1 else v)) == mCbs && late == mLate &&
+    waitRet == mWait && !(bool (field impl "clientEnded"))
+  { agree := agree, holds := why == "", nontrivial := true, cls := "wedge:" ++ badK ++ ":" ++ str (field inp "mode"),
+    model := Json.mkObj [("rets", toJson mRets), ("late", mLate), ("waitReturns", mWait)],
+    why := if why != "" then why else if agree then "" else
+      s!"observation differs from the model: rets {rets} / {mRets}, callbacks {cbs} / {mCbs}, late {late} / {mLate}, wait returned {waitRet} / {mWait}, client ended by itself {bool (field impl "clientEnded")}" }
+
 def handle : Handler := fun op inp impl =>
   match op with
   | "oscmd" => ConfModel.Driver.OSCmd.judgeClient inp impl
+  | "wedge" => judgeWedge inp impl
   | "run" =>
     let namesL := natList (field inp "names")
     let n := namesL.length
